@@ -9,6 +9,7 @@ combinations, ServiceErrors carrying a declared name) and the wire + the client'
 compared with drv_errmap's answer."""
 import itertools
 import json
+from urllib.parse import parse_qsl, urlencode
 import os
 import shutil
 
@@ -175,6 +176,10 @@ def run(c):
     ]
     have = c.go_build("genrun", "gotolean")
     lean_ok = False
+    if c.go_build("gofacts") and c.gofacts("statusconst", "FactsStatus") and c.lake_build("GoaVerif.Props.Status"):
+        c.audit("Status")
+        if c.tier == "thorough":
+            c.leanchecker("Status")
     if c.gotolean("status", "TrStatus"):
         if c.lake_build("GoaVerif.Props.C05"):
             c.audit("C05")
@@ -188,6 +193,8 @@ def run(c):
     drv = os.path.join(LEAN, ".lake/build/bin/drv_errmap")
     work = designs.scratch("C05")
     builds = e2e.build_many(c.seed, range(n), lambda i: ["-errors"], work)
+    # the status design: an error for every 4xx / 5xx status, named by net/http (written as a constant by the generators) or not
+    builds += e2e.build_many(c.seed, range(1 if c.tier == "quick" else 3), lambda i: ["-status-design"], work)
     total = 0
     for b in builds:
         if b.error:
@@ -198,7 +205,7 @@ def run(c):
             b.cleanup()
             continue
         c.hist("build", "ok")
-        cmds, meta, lines = [], [], []
+        cmds, meta, lines, valids = [], [], [], []
         for s in b.design["services"]:
             for m in s["methods"]:
                 if not m.get("http"):
@@ -214,6 +221,8 @@ def run(c):
                         p = None
                     if p is None:
                         continue
+                if p is not None:
+                    valids.append((s, m, p))
                 ctx = ctx_tokens(b.design, s, m)
                 for label, script, rtoks, exp in scripts_for(b, s, m, rng):
                     if not exp.get("undeclared"):
@@ -249,12 +258,117 @@ def run(c):
                        design=b.design, expected=model,
                        actual=json.dumps({"client_error": o.get("client_error"), "write_headers": o.get("write_headers"), "panic": (o.get("panic") or "")[:300],
                                           "wire": {k: (o.get("wire") or {}).get(k) for k in ("status", "resp_headers", "resp_body")}})[:1200])
+        total += decode_failures(c, b, valids)
         if len(c.cov["samples"]) < 3 and cmds:
             c.sample({"design_index": b.index, "script": cmds[0]["script"], "model": models[0],
                       "wire_status": (obs[0].get("wire") or {}).get("status"), "client_error": obs[0].get("client_error")})
         b.cleanup()
     shutil.rmtree(work, ignore_errors=True)
     c.cov["ties"].setdefault("T5", []).append({"name": "generated error encoder / client decoder vs Lean ErrorMap", "exchanges": total})
+
+
+STANDARD_NAMES = {"missing_field", "invalid_field_type", "decode_payload", "missing_payload", "invalid_format", "invalid_pattern", "invalid_range",
+                  "invalid_length", "invalid_enum_value"}
+
+
+def decode_failures(c, b, valids):
+    """Requests the generated decoder cannot read (a required parameter, header or cookie missing; a number that is not one; a body that is
+    not JSON): each is answered by exactly one response with status 400 whose body names a standard client error, none of the flags set,
+    and the service method does not run."""
+    first = [{"op": "call", "service": s["name"], "method": m["name"], "payload": p, "script": {"error": {"kind": "plain", "message": "x"}}} for s, m, p in valids]
+    if not first:
+        return 0
+    obs, err = b.run(first)
+    if obs is None or len(obs) != len(first):
+        c.broken.append({"kind": "tie", "name": "e2e binary failed for design %d (decode failures)" % b.index, "detail": str(err)[-800:]})
+        return 0
+    cmds, meta = [], []
+    for (s, m, p), o in zip(valids, obs):
+        w = o.get("wire") or {}
+        if not o.get("server_called") or not w.get("method"):
+            continue
+        pay = b.schema.resolve(m["payload"])
+        fields = dict(b.schema.fields(m["payload"])) if (pay.get("type") or {}).get("object") is not None or (pay.get("type") or {}).get("is_object") else {}
+        required = set(pay.get("required") or [])
+        headers = {k: v for k, v in (w.get("headers") or {}).items() if k not in ("Content-Length", "Host")}
+        target = w.get("path", "/") + ("?" + w["raw_query"] if w.get("raw_query") else "")
+
+        def add(label, want, target=target, headers=headers, body=w.get("body") or ""):
+            cmds.append({"op": "raw", "script": {"error": {"kind": "plain", "message": "x"}}, "raw": {"method": w["method"], "target": target, "headers": headers, "body": body}})
+            meta.append((s, m, label, want))
+        if w.get("body") and (headers.get("Content-Type") or [""])[0].startswith("application/json"):
+            add("body-not-json", {"decode_payload"}, body="{")
+        q = parse_qsl(w.get("raw_query") or "", keep_blank_values=True)
+        ck = [k for k in headers if k.lower() == "cookie"]
+        jar = [x.split("=", 1) for v in (headers.get(ck[0]) if ck else []) for x in v.split("; ") if "=" in x]
+        for loc_key, loc in (("params", "query"), ("headers", "header"), ("cookies", "cookie")):
+            for mp in (m["http"].get(loc_key) or []):
+                wire, att = mp.get("wire") or mp["attr"], fields.get(mp["attr"])
+                if att is None or "{" + wire + "}" in m["http"]["path"] or "{*" + wire + "}" in m["http"]["path"]:
+                    continue
+                ra = b.schema.resolve(att)
+                prim = (ra.get("type") or {}).get("prim")
+                numeric = prim in e2e.INT_RANGES or prim in ("Float32", "Float64", "Boolean")
+                must = mp["attr"] in required and not ra.get("has_default")
+                if c04.later_required_cookie(m, loc, mp["attr"]):
+                    c.hist("decode failure", "skipped: a required cookie is read later (C04 finding)")
+                    continue
+                if loc == "query" and any(k == wire for k, _ in q):
+                    path = w.get("path", "/")
+                    if must:
+                        q2 = [(k, v) for k, v in q if k != wire]
+                        add("query-missing", {"missing_field"}, target=path + ("?" + urlencode(q2) if q2 else ""))
+                    if numeric:
+                        add("query-wrong-type", {"invalid_field_type"}, target=path + "?" + urlencode([(k, "abc" if k == wire else v) for k, v in q]))
+                elif loc == "header":
+                    hk = [k for k in headers if k.lower() == wire.lower()]
+                    if hk and must:
+                        add("header-missing", {"missing_field"}, headers={k: v for k, v in headers.items() if k not in hk})
+                    if hk and numeric:
+                        add("header-wrong-type", {"invalid_field_type"}, headers={k: (["abc"] if k in hk else v) for k, v in headers.items()})
+                elif loc == "cookie" and any(k == wire for k, _ in jar):
+                    def with_jar(j):
+                        h2 = {k: v for k, v in headers.items() if k not in ck}
+                        if j:
+                            h2["Cookie"] = ["; ".join("%s=%s" % (k, v) for k, v in j)]
+                        return h2
+                    if must:
+                        add("cookie-missing", {"missing_field"}, headers=with_jar([(k, v) for k, v in jar if k != wire]))
+                    if numeric:
+                        add("cookie-wrong-type", {"invalid_field_type"}, headers=with_jar([(k, "abc" if k == wire else v) for k, v in jar]))
+    if not cmds:
+        return 0
+    obs, err = b.run(cmds)
+    if obs is None or len(obs) != len(cmds):
+        c.broken.append({"kind": "tie", "name": "e2e binary failed for design %d (decode failures)" % b.index, "detail": str(err)[-800:]})
+        return 0
+    for cmd, (s, m, label, want), o in zip(cmds, meta, obs):
+        w = o.get("wire") or {}
+        c.evaluations += 1
+        c.hist("decode failure", label)
+        c.count("%d/%s/%s/decode/%s/%s" % (b.index, s["name"], m["name"], label, json.dumps(cmd["raw"], sort_keys=True)[:200]))
+        try:
+            body = json.loads(w.get("resp_body") or "null")
+        except Exception:
+            body = None
+        what = None
+        if o.get("server_called"):
+            sig, what = "reached-user-code", "the service method ran"
+        elif w.get("status") != 400:
+            sig, what = "status-%s" % w.get("status"), "answered with status %s %s" % (w.get("status"), (w.get("resp_body") or "")[:200])
+        elif not isinstance(body, dict) or body.get("name") not in STANDARD_NAMES:
+            sig, what = "not-a-standard-name", "the response body is %s" % (w.get("resp_body") or "")[:200]
+        elif body.get("name") not in want:
+            sig, what = "other-name-%s" % body.get("name"), "reported as %r, expected %s" % (body.get("name"), sorted(want))
+        elif body.get("fault") or body.get("timeout") or body.get("temporary"):
+            sig, what = "flagged", "a client error carries flags: %s" % (w.get("resp_body") or "")[:200]
+        elif o.get("write_headers") not in (None, 1):
+            sig, what = "responses-%s" % o.get("write_headers"), "%s responses were written" % o.get("write_headers")
+        if what:
+            c.fail("decode-failure/%s/%s" % (label, sig), "%s.%s: a request the decoder cannot read (%s): %s" % (s["name"], m["name"], label, what),
+                   input={"seed": c.seed, "index": b.index, "command": cmd, "label": "decode:" + label}, design=b.design, expected="400 %s" % sorted(want),
+                   actual=json.dumps({"write_headers": o.get("write_headers"), "wire": {k: w.get(k) for k in ("status", "resp_headers", "resp_body")}})[:1200])
+    return len(cmds)
 
 
 def replay(c, obj):
